@@ -171,6 +171,10 @@ func (bq *Queue[Q]) Put(element Q) error {
 					break
 				}
 			}
+			// The queue could have been discarded while the lock was released.
+			if bq.discarded.Load() {
+				return nil
+			}
 		}
 	}
 	pos := bq.indexToPosition(element.GetIndex())
